@@ -306,6 +306,17 @@ func (p *Program) Callees(c ssa.CallInstruction) (fns []*ssa.Function, ok bool) 
 			return fns, true
 		}
 	}
+	// a function value: closure, local variable, slice table, function-typed parameter
+	if fv := p.funcValues(cc.Value, 0, true); len(fv) > 0 {
+		seen := map[*ssa.Function]bool{}
+		for _, f := range fv {
+			if !seen[f] {
+				seen[f] = true
+				fns = append(fns, f)
+			}
+		}
+		return fns, true
+	}
 	return nil, false
 }
 
@@ -522,9 +533,9 @@ func (p *Program) Reach(roots ...*ssa.Function) []*ssa.Function {
 				if ci, ok := ins.(ssa.CallInstruction); ok {
 					add(ci.Common().StaticCallee())
 					if ci.Common().StaticCallee() == nil && !ci.Common().IsInvoke() {
-						if g := dispatchTable(ci.Common().Value); g != nil {
-							for _, e := range p.tableFuncs(g) {
-								add(e.fn)
+						if fns, ok := p.Callees(ci); ok {
+							for _, f := range fns {
+								add(f)
 							}
 						}
 					}
